@@ -343,7 +343,7 @@ Lemma pop_head_fix : forall st a e r h4 smq' qh' qt' nr' sched' wire' log' ulen'
   exists h5,
     match hd_id r None with
     | None => Ok h4
-    | Some x => if fix_c06_1 then store h4 x (with_prev None) else Ok h4
+    | Some x => store h4 x (with_prev None)
     end = Ok h5 /\
     Refines (mkSt h5 (s_next st) (hd_id r None) (match hd_id r None with None => None | Some _ => s_tail st end)
                   (s_len st - 1) ulen' (s_sm_enabled st) (s_r_sent st) nr' qh' qt' (s_connected st) sched' wire')
@@ -356,7 +356,7 @@ Proof.
     unfold Refines. projs. cbn in Hlen. repeat split; auto. cbn. lia.
   - cbn [hd_id]. cbn [lseg] in Hr. destruct Hr as (nx & Hnx & Hex & Hpx & Hxx & Hr').
     assert (H4x : h4 (e_id x) = Live nx) by (rewrite Hfr by (cbn; auto); exact Hnx).
-    unfold fix_c06_1. rewrite (store_live _ _ _ _ H4x).
+    rewrite (store_live _ _ _ _ H4x).
     eexists. split; [reflexivity|].
     unfold Refines. projs.
     assert (Hndr : NoDup (map e_id (x :: r'))) by (eapply nodup_ids_l; eauto).
@@ -381,7 +381,7 @@ Proof. intros. unfold count_user. cbn. destruct (e_user e); cbn [length]; lia. Q
 
 Lemma write_loop_refines : forall q st a err fuel,
   Refines st a -> a_q a = q -> (length q < fuel)%nat ->
-  exists st', write_loop fuel st (s_head st) err = Ok (st', snd (a_loop q a err)) /\
+  exists st', write_loop true fuel st (s_head st) err = Ok (st', snd (a_loop q a err)) /\
               Refines st' (fst (a_loop q a err)).
 Proof.
   induction q as [|e r IH]; intros st a err fuel HR Eq Hfuel.
@@ -494,7 +494,7 @@ Lemma disconnect_refines : forall st a, Refines st a -> Refines (disconnect st) 
 Proof. intros st a HR. dR HR. unfold Refines, disconnect, a_disconnect. projs. repeat split; auto. Qed.
 
 Lemma iter_refines : forall st a, Refines st a ->
-  exists st', op_iter st = Ok (st', snd (a_iter a)) /\ Refines st' (fst (a_iter a)).
+  exists st', op_iter true st = Ok (st', snd (a_iter a)) /\ Refines st' (fst (a_iter a)).
 Proof.
   intros st a HR. unfold op_iter, a_iter.
   assert (Hc : s_connected st = a_connected a) by (dR HR; auto). rewrite Hc.
@@ -889,7 +889,7 @@ Lemma refines_wire : forall st a, Refines st a -> s_wire st = a_wire a.
 Proof. intros st a HR. dR HR. auto. Qed.
 
 Lemma step_refines : forall o st a, Refines st a ->
-  exists st', step st o = Ok (st', snd (a_step a o)) /\ Refines st' (fst (a_step a o)).
+  exists st', step true st o = Ok (st', snd (a_step a o)) /\ Refines st' (fst (a_step a o)).
 Proof.
   intros o st a HR. destruct o as [ow d|l| |w| |h]; cbn [step a_step fst snd].
   - destruct (send_refines st a ow d HR) as (st' & Hs & HR'). rewrite Hs. cbn [bind]. eauto.
@@ -908,7 +908,7 @@ Proof.
 Qed.
 
 Lemma run_refines : forall ops st a, Refines st a ->
-  exists st', run ops st = Ok (st', snd (a_run ops a)) /\ Refines st' (fst (a_run ops a)).
+  exists st', run true ops st = Ok (st', snd (a_run ops a)) /\ Refines st' (fst (a_run ops a)).
 Proof.
   induction ops as [|o r IH]; intros st a HR; cbn [run a_run fst snd].
   - eauto.
@@ -1334,15 +1334,20 @@ Proof.
   - rewrite IH, Hs. reflexivity.
 Qed.
 
+Lemma pending_cons : forall e q, pending (e :: q) = tag (e_id e) (skipn (e_sent e) (e_data e)) ++ pending q.
+Proof. reflexivity. Qed.
+
 Lemma fifo_log : forall log q, map l_e (filter lqueued log) = q -> shape log ->
   concat (map wirepart log) ++ pending q = concat (map contribution log).
 Proof.
-  induction log as [|l r IH]; intros q Hq Hs; cbn in *.
-  - subst. reflexivity.
-  - unfold lqueued in Hq. unfold wirepart at 1, contribution at 1. destruct (l_status l) eqn:Est.
-    + cbn in Hq. subst q. rewrite (clean_wirepart_nil r Hs), app_nil_r.
-      unfold pending. cbn. fold (pending (map l_e (filter lqueued r))). rewrite (clean_contrib r Hs).
-      rewrite app_assoc. f_equal. unfold lid. rewrite <- tag_app. now rewrite firstn_skipn.
+  induction log as [|l r IH]; intros q Hq Hs.
+  - cbn in *. subst. reflexivity.
+  - assert (Hlq : lqueued l = match l_status l with Queued => true | _ => false end) by reflexivity.
+    cbn [filter] in Hq. rewrite Hlq in Hq. cbn [shape] in Hs. cbn [map concat].
+    unfold wirepart at 1, contribution at 1.
+    destruct (l_status l) eqn:Est.
+    + cbn [map] in Hq. subst q. rewrite (clean_wirepart_nil r Hs), app_nil_r.
+      rewrite pending_cons, (clean_contrib r Hs). unfold lid. rewrite app_assoc, <- tag_app, firstn_skipn. reflexivity.
     + rewrite <- app_assoc. f_equal. apply IH; auto.
     + rewrite <- app_assoc. f_equal. apply IH; auto.
 Qed.
@@ -1392,8 +1397,6 @@ Proof.
   apply (untouched_not_on_wire q log wire nx (mkL e Queued)); auto.
 Qed.
 
-Definition unstarted_user (e : entry) : bool := e_user e && negb (e_wip e).
-
 Lemma K_qlen : forall a, K a -> a_qlen a = Z.of_nat (length (filter unstarted_user (a_q a))).
 Proof.
   intros a HK. unfold a_qlen. destruct (a_q a) as [|e r] eqn:Eq; [reflexivity|].
@@ -1403,6 +1406,14 @@ Proof.
     unfold unstarted_user at 1. rewrite Hw, Bool.andb_true_r. rewrite IH; auto. }
   rewrite count_user_cons. cbn [filter]. rewrite Hr. unfold unstarted_user, count_user.
   destruct (e_wip e), (e_user e); cbn [andb negb length]; lia.
+Qed.
+
+Lemma set_in_log : forall l1 t l2 log wire nx s, Kc (l1 ++ t :: l2) log wire nx -> In (mkL t s) (log_set log t s).
+Proof.
+  intros l1 t l2 log wire nx s HK.
+  destruct (filter_split _ _ _ _ (k_queue _ _ _ _ HK)) as (L1 & L2 & Hlog & _ & _).
+  pose proof (k_nodup _ _ _ _ HK) as Hnd. rewrite Hlog in *.
+  rewrite (log_set_at L1 t Queued L2 t s Hnd eq_refl). apply in_or_app. right. left. reflexivity.
 Qed.
 
 (* what a drop request does, on the abstract queue *)
@@ -1434,22 +1445,16 @@ Proof.
     pose proof HK as HK0. unfold K in HK. rewrite Hl in HK.
     assert (Hwt : a_connected a = true -> e_wip t = false).
     { intros Hc. destruct b as [|hd b']; auto. eapply tail_untouched; eauto. congruence. }
-    destruct (filter_split _ _ _ _ (k_queue _ _ _ _ HK)) as (L1 & L2 & Hlog & _ & _).
-    assert (Hin1 : forall log', NoDup (map lid log') -> In (mkL t Queued) log' \/ (exists s, In (mkL t s) log') ->
-                   True) by auto.
     unfold a_drop_at. destruct af as [|x af'].
     - cbn [snd fst a_q a_log]. exists b, t, []. repeat split; auto.
-      rewrite Hlog. rewrite (log_set_at L1 t Queued L2 t) by (rewrite <- Hlog; apply HK; auto).
-      apply in_or_app. right. left. reflexivity.
+      eapply set_in_log; eauto.
     - destruct (opt_eqb (e_link x) (Some (e_id t))) eqn:El.
       + cbn [snd fst a_q a_log]. exists b, t, (x :: af'). repeat split; auto.
         * assert (HK1 : Kc ((b ++ [t]) ++ af') (log_set (a_log a) x (Dropped (a_connected a))) (a_wire a) (a_next a)).
           { apply Kc_drop. - rewrite <- app_assoc. exact HK.
             - intros _. eapply (tail_untouched (b ++ [t]) x af'); [rewrite <- app_assoc; exact HK|]. destruct b; discriminate. }
           rewrite <- app_assoc in HK1. cbn [app] in HK1.
-          destruct (filter_split _ _ _ _ (k_queue _ _ _ _ HK1)) as (M1 & M2 & Hlog1 & _ & _).
-          rewrite Hlog1. rewrite (log_set_at M1 t Queued M2 t) by (rewrite <- Hlog1; apply HK1; auto).
-          apply in_or_app. right. left. reflexivity.
+          eapply set_in_log; eauto.
         * right. exists x, af'.
           assert (Hx : e_sent x = 0%nat /\ e_wip x = false).
           { eapply (tail_untouched (b ++ [t]) x af'); [rewrite <- app_assoc; exact HK|]. destruct b; discriminate. }
@@ -1461,10 +1466,9 @@ Proof.
           cbn in Hg3. destruct Hg3 as [Ho Hd]; [congruence|].
           repeat split; auto; tauto.
       + cbn [snd fst a_q a_log]. exists b, t, (x :: af'). repeat split; auto.
-        rewrite Hlog. rewrite (log_set_at L1 t Queued L2 t) by (rewrite <- Hlog; apply HK; auto).
-        apply in_or_app. right. left. reflexivity. }
-  unfold a_drop. destruct (a_q a) as [|e [|e2 r]] eqn:Eq; auto.
-  destruct (e_wip e && a_connected a); auto. destruct (negb (e_user e)); auto.
+        eapply set_in_log; eauto. }
+  unfold a_drop. destruct (a_q a) as [|e [|e2 r]] eqn:Eq; auto; [reflexivity|].
+  destruct (e_wip e && a_connected a); [reflexivity|]. destruct (negb (e_user e)); [reflexivity|]. auto.
 Qed.
 
 Lemma K_dropped_not_on_wire : forall a l, K a -> In l (a_log a) -> l_status l = Dropped true ->
@@ -1472,4 +1476,179 @@ Lemma K_dropped_not_on_wire : forall a l, K a -> In l (a_log a) -> l_status l = 
 Proof.
   intros a l HK Hl Hs. pose proof (k_good _ _ _ _ HK) as Hg. rewrite Forall_forall in Hg.
   destruct (Hg _ Hl) as (_ & Hg2 & _). eapply untouched_not_on_wire; eauto. congruence.
+Qed.
+
+(* ---- the log is a faithful record: steps only append what they queue, identity/owner/text never change *)
+Lemma keys_set_head : forall e r log wire nx e' s',
+  Kc (e :: r) log wire nx -> e_id e' = e_id e -> e_owner e' = e_owner e -> e_data e' = e_data e ->
+  map lkey (log_set log e' s') = map lkey log.
+Proof.
+  intros e r log wire nx e' s' HK Hid Ho Hd.
+  destruct (K_set_head e r log wire nx e' s' HK Hid) as (P & R & Hlog & Hset & _).
+  rewrite Hset, Hlog, !map_app. cbn [map]. unfold lkey at 2 4. cbn. now rewrite Hid, Ho, Hd.
+Qed.
+
+Lemma loop_keys : forall q a err, Kc q (a_log a) (a_wire a) (a_next a) ->
+  map lkey (a_log (fst (a_loop q a err))) = map lkey (a_log a).
+Proof.
+  induction q as [|e r IH]; intros a err HK.
+  - reflexivity.
+  - cbn [a_loop].
+    destruct (pop_sched (a_sched a)) as [res sched'].
+    destruct (write_result res (length (e_data e) - e_sent e)) as [ret er] eqn:Ewr.
+    destruct (match ret with Some k => Nat.eqb k (length (e_data e) - e_sent e) | None => false end) eqn:Ecomp;
+      cbn [negb].
+    + destruct ret as [k|]; [|discriminate]. apply Nat.eqb_eq in Ecomp. subst k.
+      rewrite IH; cbn [a_log a_wire a_next].
+      * eapply keys_set_head; eauto; destruct (negb (is_sm (e_owner e)) && a_sm_enabled a); reflexivity.
+      * assert (Hall : firstn (length (e_data e) - e_sent e) (skipn (e_sent e) (e_data e)) = skipn (e_sent e) (e_data e)).
+        { apply firstn_all2. rewrite skipn_length. lia. }
+        unfold tag in *. rewrite Hall.
+        apply Kc_complete; auto; destruct (negb (is_sm (e_owner e)) && a_sm_enabled a); reflexivity.
+    + cbn [fst a_log]. eapply keys_set_head; eauto.
+Qed.
+
+Lemma keys_drop : forall l1 t l2 log wire nx s, Kc (l1 ++ t :: l2) log wire nx ->
+  map lkey (log_set log t s) = map lkey log.
+Proof.
+  intros l1 t l2 log wire nx s HK.
+  destruct (filter_split _ _ _ _ (k_queue _ _ _ _ HK)) as (L1 & L2 & Hlog & _ & _).
+  pose proof (k_nodup _ _ _ _ HK) as Hnd. rewrite Hlog in *.
+  rewrite (log_set_at L1 t Queued L2 t s Hnd eq_refl). rewrite !map_app. reflexivity.
+Qed.
+
+Lemma step_keys : forall a o, K a -> map lkey (a_log (fst (a_step a o))) = map lkey (a_log a) ++ submitted a o.
+Proof.
+  intros a o HK. destruct o as [ow d|l| |w| |h]; cbn [a_step fst submitted]; try (now rewrite app_nil_r).
+  - unfold a_send. destruct (a_connected a) eqn:Ec; [|now rewrite app_nil_r].
+    cbn [a_enqueue a_sm_enabled a_r_sent a_connected a_set_r_sent]. 
+    destruct (negb (is_sm ow) && a_sm_enabled a && negb (a_r_sent a)).
+    + rewrite Ec. cbn [fst a_enqueue a_log a_next a_set_r_sent]. rewrite !map_app. cbn. rewrite <- app_assoc. reflexivity.
+    + cbn [a_log]. rewrite map_app. reflexivity.
+  - rewrite app_nil_r. unfold a_iter. destruct (a_connected a); auto.
+    pose proof (loop_keys (a_q a) a false HK) as H1.
+    destruct (a_loop (a_q a) a false) as [a1 err]. cbn [fst] in *. destruct err; auto.
+  - rewrite app_nil_r.
+    assert (Hreg : map lkey (a_log (fst (a_drop_regular a w))) = map lkey (a_log a)).
+    { unfold a_drop_regular. destruct (a_target (a_q a) (a_connected a) w) as [[[b t] af]|] eqn:Et; auto.
+      destruct (a_target_spec _ _ _ _ _ _ Et) as (Hl & _ & _). unfold K in HK. rewrite Hl in HK.
+      unfold a_drop_at. destruct af as [|x af'].
+      - cbn [fst a_log]. eapply keys_drop; eauto.
+      - destruct (opt_eqb (e_link x) (Some (e_id t))); cbn [fst a_log].
+        + assert (HK1 : Kc ((b ++ [t]) ++ af') (log_set (a_log a) x (Dropped (a_connected a))) (a_wire a) (a_next a)).
+          { apply Kc_drop. - rewrite <- app_assoc. exact HK.
+            - intros _. eapply (tail_untouched (b ++ [t]) x af'); [rewrite <- app_assoc; exact HK|]. destruct b; discriminate. }
+          rewrite <- app_assoc in HK1. cbn [app] in HK1.
+          rewrite (keys_drop _ _ _ _ _ _ _ HK1).
+          eapply (keys_drop (b ++ [t]) x af'). rewrite <- app_assoc. exact HK.
+        + eapply keys_drop; eauto. }
+    unfold a_drop. destruct (a_q a) as [|e [|e2 r]]; auto.
+    destruct (e_wip e && a_connected a); auto. destruct (negb (e_user e)); auto.
+  - rewrite app_nil_r. unfold a_ack. destruct (a_connected a && a_sm_enabled a); reflexivity.
+Qed.
+
+(* ================================================================== the property statements on the model *)
+Lemma reach : forall sm ops st outs, run true ops (init sm) = Ok (st, outs) ->
+  Refines st (abs sm ops) /\ outs = snd (a_run ops (a_init sm)) /\ K (abs sm ops).
+Proof.
+  intros sm ops st outs H. destruct (run_refines ops _ _ (init_refines sm)) as (st' & Hr & HR).
+  rewrite Hr in H. inversion H; subst. split; auto. split; auto. apply K_run, K_init.
+Qed.
+
+Lemma thm_dll_wf : forall sm ops,
+  exists st, run true ops (init sm) = Ok (st, snd (a_run ops (a_init sm))) /\ Refines st (abs sm ops) /\
+             exists w, queue_of st = Ok w /\ entries_of w = a_q (abs sm ops).
+Proof.
+  intros sm ops. destruct (run_refines ops _ _ (init_refines sm)) as (st & Hr & HR).
+  exists st. split; auto. split; auto. apply queue_of_ok; auto.
+Qed.
+
+Lemma thm_fifo : forall sm ops st outs, run true ops (init sm) = Ok (st, outs) ->
+  exists w, queue_of st = Ok w /\
+            s_wire st ++ pending (entries_of w) = concat (map contribution (a_log (abs sm ops))).
+Proof.
+  intros sm ops st outs H. destruct (reach _ _ _ _ H) as (HR & _ & HK).
+  destruct (queue_of_ok _ _ HR) as (w & Hw & He). exists w. split; auto.
+  rewrite He, (refines_wire _ _ HR). apply K_fifo; auto.
+Qed.
+
+Lemma thm_qlen : forall sm ops st outs, run true ops (init sm) = Ok (st, outs) ->
+  exists w, queue_of st = Ok w /\
+            op_qlen st = Ok (Z.of_nat (length (filter unstarted_user (entries_of w)))) /\
+            forall e, In e (entries_of w) -> e_wip e = false -> e_sent e = 0%nat /\ ~ on_wire (e_id e) (s_wire st).
+Proof.
+  intros sm ops st outs H. destruct (reach _ _ _ _ H) as (HR & _ & HK).
+  destruct (queue_of_ok _ _ HR) as (w & Hw & He). exists w. split; auto.
+  rewrite He, (refines_wire _ _ HR), (qlen_refines _ _ HR), (K_qlen _ HK). split; auto.
+  intros e Hin Hwip. eapply unstarted_untouched; eauto.
+Qed.
+
+Lemma thm_drop : forall sm ops st outs w, run true ops (init sm) = Ok (st, outs) ->
+  exists st' r wq wq', op_drop st w = Ok (st', r) /\ queue_of st = Ok wq /\ queue_of st' = Ok wq' /\
+    match r with
+    | None => entries_of wq' = entries_of wq
+    | Some txt =>
+      exists b t af, entries_of wq = b ++ t :: af /\ txt = e_data t /\ e_user t = true /\
+        In (mkL t (Dropped (s_connected st))) (a_log (abs sm (ops ++ [ODrop w]))) /\
+        (s_connected st = true -> e_wip t = false /\ e_sent t = 0%nat /\ ~ on_wire (e_id t) (s_wire st)) /\
+        (entries_of wq' = b ++ af \/
+         exists x af', af = x :: af' /\ e_link x = Some (e_id t) /\ e_owner x = OwSmLib /\ e_data x = req_ack /\
+                       e_wip x = false /\ e_sent x = 0%nat /\ ~ on_wire (e_id x) (s_wire st) /\
+                       entries_of wq' = b ++ af')
+    end.
+Proof.
+  intros sm ops st outs w H. destruct (reach _ _ _ _ H) as (HR & _ & HK).
+  destruct (drop_refines st _ w HR) as (st' & Hd & HR').
+  destruct (queue_of_ok _ _ HR) as (wq & Hwq & Heq). destruct (queue_of_ok _ _ HR') as (wq' & Hwq' & Heq').
+  exists st', (snd (a_drop (abs sm ops) w)), wq, wq'. repeat (split; auto).
+  pose proof (a_drop_spec _ w HK) as Hs.
+  assert (Habs : abs sm (ops ++ [ODrop w]) = fst (a_drop (abs sm ops) w)).
+  { unfold abs. clear. generalize (a_init sm). induction ops; intros; cbn; auto. }
+  assert (Hc : s_connected st = a_connected (abs sm ops)) by (dR HR; auto).
+  rewrite Heq, Heq', Habs, Hc, (refines_wire _ _ HR).
+  destruct (snd (a_drop (abs sm ops) w)) as [txt|].
+  - destruct Hs as (b & t & af & Hq & Htxt & Hu & Hlog & Hlive & Hq').
+    exists b, t, af. split; [exact Hq|]. split; [exact Htxt|]. split; [exact Hu|]. split; [exact Hlog|]. split.
+    + intros Hcon. specialize (Hlive Hcon). split; auto.
+      eapply unstarted_untouched; eauto. rewrite Hq. apply in_or_app. right. left. reflexivity.
+    + destruct Hq' as [Hq'|(x & af' & -> & Hl & Ho & Hd' & Hw & Hs' & Hq')]; [left; auto|].
+      right. exists x, af'. split; [reflexivity|]. split; [exact Hl|]. split; [exact Ho|]. split; [exact Hd'|].
+      split; [exact Hw|]. split; [exact Hs'|]. split; [|exact Hq'].
+      eapply (unstarted_untouched (a_q (abs sm ops))); eauto. rewrite Hq. apply in_or_app. right. right. left. reflexivity.
+  - now rewrite Hs.
+Qed.
+
+Lemma thm_dropped_never_on_wire : forall sm ops st outs, run true ops (init sm) = Ok (st, outs) ->
+  forall l, In l (a_log (abs sm ops)) -> l_status l = Dropped true -> ~ on_wire (e_id (l_e l)) (s_wire st).
+Proof.
+  intros sm ops st outs H l Hl Hs. destruct (reach _ _ _ _ H) as (HR & _ & HK).
+  rewrite (refines_wire _ _ HR). apply (K_dropped_not_on_wire _ l HK Hl Hs).
+Qed.
+
+Lemma thm_log_record : forall sm ops o,
+  map lkey (a_log (abs sm (ops ++ [o]))) = map lkey (a_log (abs sm ops)) ++ submitted (abs sm ops) o.
+Proof.
+  intros sm ops o.
+  assert (Habs : abs sm (ops ++ [o]) = fst (a_step (abs sm ops) o)).
+  { unfold abs. generalize (a_init sm). induction ops; intros; cbn; auto. }
+  rewrite Habs. apply step_keys. apply K_run, K_init.
+Qed.
+
+Lemma thm_drop_text : forall sm ops st outs w, run true ops (init sm) = Ok (st, outs) ->
+  exists st' r wq, op_drop st w = Ok (st', r) /\ queue_of st = Ok wq /\
+    forall txt, r = Some txt ->
+      exists t, In t (entries_of wq) /\ e_user t = true /\ txt = e_data t /\
+                In (e_id t, OwUser, txt) (map lkey (a_log (abs sm ops))) /\
+                In (mkL t (Dropped (s_connected st))) (a_log (abs sm (ops ++ [ODrop w]))).
+Proof.
+  intros sm ops st outs w H. destruct (thm_drop sm ops st outs w H) as (st' & r & wq & wq' & Hd & Hq & _ & Hr).
+  exists st', r, wq. split; auto. split; auto. intros txt ->.
+  destruct Hr as (b & t & af & Hw & Htxt & Hu & Hlog & _).
+  exists t. split; [rewrite Hw; apply in_or_app; right; left; reflexivity|]. split; auto. split; auto. split; auto.
+  destruct (reach _ _ _ _ H) as (HR & _ & HK). destruct (queue_of_ok _ _ HR) as (wq2 & Hq2 & He2).
+  rewrite Hq in Hq2. inversion Hq2; subst wq2.
+  assert (Hin : In (mkL t Queued) (a_log (abs sm ops))).
+  { eapply queued_in_log; [apply HK|]. rewrite <- He2, Hw. apply in_or_app; right; left; reflexivity. }
+  apply in_map_iff. exists (mkL t Queued). split; auto. unfold lkey. cbn.
+  unfold e_user in Hu. destruct (e_owner t); try discriminate. reflexivity.
 Qed.
